@@ -95,7 +95,7 @@ theorem exGgOk : GgOk exGg := by
 
 /-- so the theorem applies to this program: for every oracle and every number of steps -/
 example (ext : Ext Int) (hx : ExtOk ext) (fuel : Nat) (st' : St Int) (w : String) :
-    execStmts intOps ext exProg fuel exProg.stmts {} ≠ .err (.internal w) st' :=
-  (program_never_goes_wrong intOps ext exProg exΦ exGg hx exGgOk progOk fuel {} st' [] stmtsTyped initOk w).1
+    execStmts intOps ext exProg fuel exProg.stmts {} ≠ .err (.goPanic w) st' :=
+  (program_never_goes_wrong intOps ext exProg exΦ exGg hx exGgOk progOk fuel {} st' [] stmtsTyped initOk w).2
 
 end EvyV.TS.Example
